@@ -165,3 +165,15 @@ _run_c15 = run
 def run(ctx: Ctx):  # noqa: F811
     _run_c15(ctx)
     _class_hooks(ctx)
+
+
+_run_before_base_protocol = run
+
+
+def run(ctx: Ctx):  # noqa: F811
+    _run_before_base_protocol(ctx)
+    # base-protocol classes (not in the metamodel; emitted from hand-written templates): a position typed LSPAny is not structured, so unknown properties of the object survive in the result
+    from . import _imgbase as _ib
+    from ..common import P_TYPES as _PT
+    for construct, ok, msg, ln in _ib.base_protocol_shape(_ib.image(ctx)):
+        ctx.check(ok, "base-protocol-positions-typed", construct, msg, _PT, ln)
